@@ -2,6 +2,7 @@ package main
 
 import (
 	"fmt"
+	"os"
 	"go/constant"
 	"go/token"
 	"go/types"
@@ -113,6 +114,12 @@ func (fr *Frame) execInstr(in ssa.Instruction, st *State) {
 			fx.heapSet(st, key, Store(arr, r, Term{fmt.Sprintf("((as const %s) %s)", inner, zeroOf(at.Elem()).S), inner}))
 		default:
 			s := sortOf(elem)
+			if k, ok := fx.eng.localKey(x); ok {
+				lv := &LV{Key: k, Ref: Int(1), Sort: s, IsRef: isRefTy(elem)}
+				fx.writeLV(st, lv, zeroOf(elem))
+				fr.set(x, Val{LV: lv, Known: true})
+				return
+			}
 			lv := &LV{Key: cellKey(s), Ref: r, Sort: s}
 			fx.writeLV(st, lv, zeroOf(elem))
 		}
@@ -148,7 +155,7 @@ func (fr *Frame) execInstr(in ssa.Instruction, st *State) {
 			fr.set(x, tv(fx.subRef(base, key)))
 		} else {
 			s := sortOf(f.Type())
-			lv := &LV{Key: key, Ref: base, Sort: s}
+			lv := &LV{Key: key, Ref: base, Sort: s, IsRef: isRefTy(f.Type())}
 			t := fx.ctx.Define(x.Name(), fx.readLV(st, lv))
 			fx.wellFormed(st, t, f.Type())
 			fr.set(x, tv(t))
@@ -163,7 +170,7 @@ func (fr *Frame) execInstr(in ssa.Instruction, st *State) {
 		if isStruct(f.Type()) || isArray(f.Type()) {
 			fr.set(x, tv(fx.subRef(p, key)))
 		} else {
-			fr.set(x, Val{LV: &LV{Key: key, Ref: p, Sort: sortOf(f.Type())}, Known: true})
+			fr.set(x, Val{LV: &LV{Key: key, Ref: p, Sort: sortOf(f.Type()), IsRef: isRefTy(f.Type())}, Known: true})
 		}
 	case *ssa.Index:
 		fr.index(x, st)
@@ -189,6 +196,9 @@ func (fr *Frame) execInstr(in ssa.Instruction, st *State) {
 		fx.heapSet(st, dk, Store(dom, r, Term{fmt.Sprintf("((as const %s) false)", ArraySort(ks, SBool)), ArraySort(ks, SBool)}))
 		fx.mapLenSet(st, r, Int(0))
 		fr.set(x, tv(r))
+		if os.Getenv("GOVC_DEBUG") != "" {
+			fmt.Fprintf(os.Stderr, "MakeMap %s -> %s\n", x.Name(), r.S)
+		}
 	case *ssa.MakeSlice:
 		r := fx.alloc(st)
 		ln := fx.materialize(fr.val(x.Len), nil)
@@ -219,6 +229,7 @@ func (fr *Frame) execInstr(in ssa.Instruction, st *State) {
 		fr.typeAssert(x, st)
 	case *ssa.Defer:
 		fr.defers = append(fr.defers, x)
+		fr.deferPCs = append(fr.deferPCs, st.pc)
 		var vs []Val
 		vs = append(vs, fr.val(x.Call.Value))
 		for _, a := range x.Call.Args {
@@ -226,7 +237,7 @@ func (fr *Frame) execInstr(in ssa.Instruction, st *State) {
 		}
 		fr.deferVals = append(fr.deferVals, vs)
 	case *ssa.RunDefers:
-		fr.runDefers(st)
+		fr.runDefers(st, x.Block())
 	case *ssa.Go:
 		// the goroutine body is verified separately; the spawn havocs what the callee may write
 		fr.call(x.Common(), nil, st, x.Pos())
@@ -478,7 +489,7 @@ func (fr *Frame) index(x *ssa.Index, st *State) {
 	case *types.Array:
 		fx.oblige(st, "panic", fr.siteLabel("index", x.Pos(), x), And(Ge(idx, Int(0)), Lt(idx, Int(t.Len()))), x.Pos())
 		es := sortOf(t.Elem())
-		lv := &LV{Key: elemKey(es), Ref: base, Idx: &idx, Sort: es}
+		lv := &LV{Key: elemKey(es), Ref: base, Idx: &idx, Sort: es, IsRef: isRefTy(t.Elem())}
 		r := fx.ctx.Define(x.Name(), fx.readLV(st, lv))
 		fx.wellFormed(st, r, t.Elem())
 		fr.set(x, tv(r))
@@ -519,7 +530,7 @@ func (fr *Frame) indexAddr(x *ssa.IndexAddr, st *State) {
 	fx.oblige(st, "panic", fr.siteLabel("index", x.Pos(), x), And(Ge(idx, Int(0)), Lt(idx, ln)), x.Pos())
 	es := sortOf(et)
 	abs := fx.ctx.Define("idx", Add(off, idx))
-	lv := &LV{Key: elemKey(es), Ref: base, Idx: &abs, Sort: es}
+	lv := &LV{Key: elemKey(es), Ref: base, Idx: &abs, Sort: es, IsRef: isRefTy(et)}
 	if isStruct(et) {
 		// slice of struct values: cells hold refs to per-element struct objects
 		r := fx.ctx.Define(x.Name(), fx.readLV(st, lv))
